@@ -70,6 +70,13 @@ def gen_cases(rng, tier):
                     edges = np.sort(np.abs(rng.normal(size=nb + 1))) * 2.5
                     if rng.random() < 0.5:
                         edges[0] = 0.0
+                    if n_pts >= 3 and rng.random() < 0.5:
+                        # bin edges that coincide EXACTLY with pair distances (half-open bins are decided here)
+                        dd = np.unique(np.sqrt(((pos[:, :, None] - pos[:, None, :]) ** 2).sum(axis=0)).ravel())
+                        pick = np.sort(rng.choice(dd, size=min(len(dd), nb + 1), replace=False))
+                        if len(pick) >= 2:
+                            edges = pick
+                            nb = len(edges) - 1
                     cases.append(("unstructured", dict(dim=dim, n=n_pts, nf=nf, nb=nb, est=est, dist="e"),
                                   (f, edges, pos, est, "e")))
                     if dim == 2:
